@@ -352,6 +352,14 @@ func (w *Worker) external(fn *ssa.Function, args []Value) (Value, bool) {
 		switch name {
 		case "internal/bytealg.IndexByteString", "internal/bytealg.IndexByte":
 			return nil, false
+		case "internal/bytealg.CompareString":
+			a, b := args[0].(StrV), args[1].(StrV)
+			lt := w.binop(tokenLSS, types.Typ[types.String], a, b).(*Term)
+			eq := w.strEq(a, b)
+			return tt.Ite(eq, tt.BV(64, 0), tt.Ite(lt, tt.BV(64, ^uint64(0)), tt.BV(64, 1))), true
+		case "internal/bytealg.MakeNoZero":
+			n := w.concInt(args[0].(*Term), "MakeNoZero length")
+			return w.newSlice(types.Typ[types.Uint8], n, n), true
 		}
 		if fn.Blocks == nil {
 			panic(unsupported("runtime-internal function %s", name))
